@@ -82,7 +82,7 @@ PROPS['C11'] = dict(
          'NotReady, InvalidRequest, BufferTooSmall, InflightExhausted, send-time PacketTooLarge) are modelled as the code has them.')
 
 PROPS['C14'] = dict(
-    sess=[('sess_c14', 400, 5000), ('py_edges', 300, 4000)],
+    sess=[('sess_c14', 400, 5000), ('py_edges', 300, 4000), ('py_c14', 300, 3000)],
     events='wr', state=['mps', 'ret', 'rel', 'ctl', 'conn', 'live', 'rb', 'pl'],
     monitors=[M.mon_c14, M.mon_refused_too_large, M.mon_panic],
     title='Maximum Packet Size is honoured in both directions',
@@ -162,8 +162,8 @@ PROPS['C08'] = dict(
     codec=[('decode_exh', 0, 0), ('decode_hdr', 0, 0), ('decode_utf8', 0, 0), ('decode_gen', 3000, 40000),
            ('decode_props', 2000, 30000), ('reader', 2000, 30000)],
     sess=[('sess_c08', 300, 4000), ('py_edges', 200, 3000), ('py_c08', 400, 6000)],
-    events='wrf', state=['ret', 'rel', 'ctl', 'srv', 'live', 'conn', 'rb', 'pl', 'quota'],
-    monitors=[M.mon_panic, M.mon_c08, M.mon_c08_valid, M.mon_c11], codec_monitors=[M.mon_decode, M.mon_decode_valid],
+    events='wrf', state=['ret', 'rel', 'ctl', 'srv', 'live', 'conn', 'rb', 'pl', 'quota', 'cid', 'sp', 'gen'],
+    monitors=[M.mon_panic, M.mon_c08, M.mon_c08_connack, M.mon_c08_valid, M.mon_c11], codec_monitors=[M.mon_decode, M.mon_decode_valid],
     title='any inbound bytes: valid packets accepted verbatim, malformed rejected, no panic',
     claim='Proved in Coq: variable byte integers round-trip and the reader accepts exactly the canonical encodings (<= 4 bytes, '
           '<= 268435455); the packet reader\'s lax length probe agrees with the canonical reader; the first byte is accepted '
